@@ -164,14 +164,14 @@ impl Channel {
     /// and then [`Exchange::publish`](struct.Exchange.html#method.publish) to avoid this.
     pub fn basic_publish<S: Into<String>>(&self, exchange: S, publish: Publish) -> Result<()> {
         let mut inner = self.inner.borrow_mut();
-        inner.call_nowait(AmqpBasic::Publish(AmqpPublish {
-            ticket: 0,
-            exchange: exchange.into(),
-            routing_key: publish.routing_key,
-            mandatory: publish.mandatory,
-            immediate: publish.immediate,
-        }))?;
-        inner.send_content(
+        inner.send_with_content(
+            AmqpBasic::Publish(AmqpPublish {
+                ticket: 0,
+                exchange: exchange.into(),
+                routing_key: publish.routing_key,
+                mandatory: publish.mandatory,
+                immediate: publish.immediate,
+            }),
             publish.body,
             AmqpPublish::get_class_id(),
             &publish.properties,
